@@ -311,7 +311,7 @@ fn gen_call(rng: &mut Rng) -> BCall {
         16 | 17 => BCall::IntervalMs(if rng.chance(1, 4) {
             None
         } else {
-            Some(*rng.pick(&[0u32, 1, 10, 50, 100, 500, 1000, 8000, 65535]))
+            Some(*rng.pick(&[0u32, 1, 10, 50, 100, 500, 1000, 8000, 65535, 65536, 100_000, 3_600_000]))
         }),
         18 | 19 => BCall::Iname(if rng.chance(1, 4) {
             None
@@ -449,6 +449,19 @@ impl Prop for C18 {
                 if let BCall::Udp(Some(p)) = c {
                     if *p != 0 {
                         *c = BCall::Udp(Some(0));
+                    }
+                }
+            }
+            // relay options set on a builder that ends up on a direct transport must not leak
+            if rng.chance(1, 3) {
+                let at = rng.usize(0, calls.len());
+                calls.insert(at, BCall::RelaySelectHost(Some(rand_name(rng, 12))));
+            }
+            // an interval the 16-bit wire field cannot carry makes the handshake fail: not here
+            for c in calls.iter_mut() {
+                if let BCall::IntervalMs(Some(ms)) = c {
+                    if *ms > 65_535 {
+                        *c = BCall::IntervalMs(Some(65_535));
                     }
                 }
             }
